@@ -29,6 +29,10 @@ contract* the infretis engine classes rely on, nothing more:
     box_rate   per-MD-step change of every box number (list), default none
     accel      constant acceleration [ax, ay, az] of every atom, default none
     cut        "line" | "midline": where a frame is cut in two parts (text formats)
+    unit       "half" (default): schedule amounts are half frames as described above;
+               "bytes": schedule amounts are cumulative BYTE counts of the stream, so the
+               program can flush at ANY byte position (inside a number, before a newline, ...);
+               honoured by the programs that pass it to Stream (fake_cp2k.py)
 """
 import json
 import os
@@ -121,14 +125,17 @@ class Ctl:
 class Stream:
     """One output file that becomes visible in (half-)frame units."""
 
-    def __init__(self, path, frames, cuts):
+    def __init__(self, path, frames, cuts, unit="half"):
         self.path = path
         self.frames = frames        # list of bytes, one per frame
         self.cuts = cuts            # cut offset inside each frame (first part length)
+        self.unit = unit            # "half": amounts in half frames; "bytes": amounts are byte counts
         self.written = 0
         self.fh = None
 
     def target_bytes(self, half):
+        if self.unit == "bytes":
+            return max(0, min(int(half), sum(len(b) for b in self.frames)))
         k, odd = divmod(int(half), 2)
         k = min(k, len(self.frames))
         n = sum(len(b) for b in self.frames[:k])
@@ -155,7 +162,7 @@ class Stream:
             self.written = n
 
     def emit_all(self):
-        self.emit(2 * len(self.frames))
+        self.emit(sum(len(b) for b in self.frames) if self.unit == "bytes" else 2 * len(self.frames))
 
 
 def text_cut(frame_bytes, mode):
